@@ -1,6 +1,7 @@
 import Ptn.C19.Model
 import Ptn.C19.Special
 import Ptn.C19.ValueModel
+import Ptn.C19.ValueSpecialModel
 /-! Line-protocol handler for the C19 model (core Lean only).
 
   grid <rows> <cols>                → `i_j-k_l,…`              pair list of `_find_nn_pairs`
@@ -22,6 +23,13 @@ import Ptn.C19.ValueModel
                                        `<site>P<k>` = input axis left / right / k-th open), the binding record of the
                                        network (`stRecord`: parent's leg `neighbour_index(node)` ~ node's leg 0) and the
                                        specified chain record (`chainRecord`)
+  starrec <cshape> <c>@<k>:<shape> … → `nodes id:lab,lab,…;… | rec a~b …`  value level of `starl`: per node (dict order) the
+                                       labels of its legs in `(parent, children, open)` order (`<id>#<axis>` = axis of the
+                                       array handed in) and the binding record `gRecord` (parent's leg
+                                       `neighbour_index(node)` ~ node's leg 0)
+  forkrec m@<k>:<shape> s<i>@<k>:<shape> … → the same for `forkl`
+  starconstrec <d> <L> <C>          → the same for `starconst`
+  forkconstrec <d> <width> <height> <bd> → the same for `forkconst`
   mpsdirect <n> <r> <p0> … | <step> … → as `mps`: `add_root` of site `r`, then the direct calls `L` / `Lf`
                                        (`attach_node_left_end`, `f` = `final=True`) and `R` (`attach_node_right_end`)
 -/
@@ -193,6 +201,17 @@ def showMpsRec (n : Nat) : Option MPT → String
         s!"{x.id}:" ++ ",".intercalate ((List.range x.legs.length).map fun k => showCLeg (x.lab n k))) ++
       " | rec " ++ showCPairs (stRecord n st) ++ " | chain " ++ showCPairs (chainRecord n)
 
+def showGLeg {ι : Type} (f : ι → String) (l : GLeg ι) : String := f l.1 ++ "#" ++ toString l.2
+
+def showGRec {ι : Type} [DecidableEq ι] (f : ι → String) : Option (List (GNode ι)) → String
+  | none => "none"
+  | some ns =>
+    let ps := gRecord ns
+    "nodes " ++ ";".intercalate (ns.map fun x =>
+        f x.id ++ ":" ++ ",".intercalate ((List.range x.legs.length).map fun k => showGLeg f (x.lab k))) ++
+      " | rec " ++ (if ps.isEmpty then "-" else
+        " ".intercalate (ps.map fun pr => showGLeg f pr.1 ++ "~" ++ showGLeg f pr.2))
+
 def parseStep (t : String) : Option (Bool × Bool) :=
   if t = "L" then some (true, false) else if t = "Lf" then some (true, true)
   else if t = "R" then some (false, false) else none
@@ -207,6 +226,22 @@ def handle (args : List String) : String :=
     match a.toNat?, b.toNat?, c.toNat? with
     | some d, some l, some ch => showGNodes showStarId ((starConst d l ch).map (·.nodes))
     | _, _, _ => "bad-op"
+  | "starrec" :: cs :: calls =>
+    match parseShape cs, calls.mapM parseStarCallL with
+    | some cshape, some cl => showGRec showStarId ((starRunL cshape cl).map (·.nodes))
+    | _, _ => "bad-op"
+  | "forkrec" :: calls =>
+    match calls.mapM parseForkCallL with
+    | some cl => showGRec showForkId ((forkRunL cl).map (·.nodes))
+    | none => "bad-op"
+  | ["starconstrec", a, b, c] =>
+    match a.toNat?, b.toNat?, c.toNat? with
+    | some d, some l, some ch => showGRec showStarId ((starConst d l ch).map (·.nodes))
+    | _, _, _ => "bad-op"
+  | ["forkconstrec", a, b, c, e] =>
+    match a.toNat?, b.toNat?, c.toNat?, e.toNat? with
+    | some d, some w, some h, some bd => showGRec showForkId ((ftps d w h bd).map (·.nodes))
+    | _, _, _, _ => "bad-op"
   | "starl" :: cs :: calls =>
     match parseShape cs, calls.mapM parseStarCallL with
     | some cshape, some cl => showGNodes showStarId ((starRunL cshape cl).map (·.nodes))
